@@ -620,7 +620,7 @@ run_one(const int *prefix, int nprefix, xres_t *x) {
     }
     fprintf(stderr, "\n");
   }
-  if ((do_crash || fault_kind) && x->ok && x->status == SCH_OK)
+  if ((do_crash || fault_kind) && x->ok && x->status == SCH_OK && strcmp(prop, "C09") != 0)
     crash_stage(v, x);
   vfs_free(v);
 }
@@ -696,7 +696,17 @@ crash_stage(vfs_t *v, xres_t *x) {
       vfs_use(img);
       if (sch_run(crash_recover_body, &j, &c) != SCH_OK) { j.open_rc = -1; j.present = 0; }
       n_crash_recoveries++;
-      if (j.open_rc != LDB_OK) {
+      if (j.open_rc == LDB_OK && !fault_kind) {
+        char ce[300];
+        if (kv_recovery_number_clash(img, DB, ce, sizeof(ce))) {
+          x->ok = 0;
+          snprintf(x->sig, sizeof(x->sig), "log-number-reused-by-recovery");
+          snprintf(x->err, sizeof(x->err), "crash at journal index %d of %d of this interleaved execution (image class %d): %s", tt, J, cls, ce);
+        }
+      }
+      if (!x->ok) {
+        /* reported above */
+      } else if (j.open_rc != LDB_OK) {
         x->ok = 0;
         snprintf(x->sig, sizeof(x->sig), fault_kind ? "open-fails-after-fault-cleared-concurrent" : "crash-open-failed");
         snprintf(x->err, sizeof(x->err), "crash at journal index %d of %d of this interleaved execution (image class %d): ldb_open fails with %d", tt, J, cls, j.open_rc);
